@@ -20,6 +20,15 @@ META = dict(
 
 
 def run(rep):
+    # known findings proposed by this property (merged into known_findings.json by the integrator)
+    import json, os
+    try:
+        with open(os.path.join(V.VERIF, "notes", "C14.known.json")) as f:
+            for k in json.load(f).get("findings", []):
+                if k.get("property") == "C14" and not rep.match_known(k.get("key")):
+                    rep.known.append(k)
+    except FileNotFoundError:
+        pass
     prep = V.prepare(["ZygoVerif.Props.C14"])
     V.lean_phase(rep, prep, "ZygoVerif.Props.C14")
     rep.assumptions += [
